@@ -9,5 +9,5 @@ cd /verif && VERIF_REPO="$wt" ./check "$prop" "$tier" > /tmp/seedtest-$prop-$$.l
 grep -E "^(VIOLATION|  signature|  what|KNOWN-FINDING|INCONCLUSIVE|BUILD-FAILED|$prop )" /tmp/seedtest-$prop-$$.log | cut -c1-300
 echo "exit=$rc"
 git -C /repo worktree remove --force "$wt"
-rm -rf /verif/.bin/alt-* /tmp/seedtest-$prop-$$.log
+alt=$(python3 -c "import hashlib,sys;print(hashlib.sha1(sys.argv[1].encode()).hexdigest()[:8])" "$wt"); rm -rf /verif/.bin/alt-$alt /tmp/seedtest-$prop-$$.log
 exit $rc
